@@ -72,10 +72,15 @@ structure GeoReport where
   connectable : List (Nat × Nat) := []
   /-- unpowered entities whose centre lies inside the bounding box of all poles -/
   unpoweredInside : List Nat := []
+  /-- unpowered entities that no pole of the grid *as laid out before trimming* would have covered either -/
+  unpoweredOffGrid : List Nat := []
+  /-- … and of those, the ones whose centre lies inside the bounding box of that grid (a hole in the grid) -/
+  unpoweredGridHole : List Nat := []
   longCopper : List Nat := []
   deriving Repr, Inhabited
 
-def geoCheck (bp : Blueprint) (protos : Array Proto) (checkPower : Bool) : GeoReport :=
+def geoCheck (bp : Blueprint) (protos : Array Proto) (checkPower : Bool)
+    (grid : List (Int × Int) := []) (gridSupply : Int := 0) : GeoReport :=
   let n := bp.ents.size
   let pr (i : Nat) : Proto := protos.getD i default
   let boxes := (Array.range n).map (fun i => absBox (bp.ents.getD i default) (pr i))
@@ -127,6 +132,16 @@ def geoCheck (bp : Blueprint) (protos : Array Proto) (checkPower : Bool) : GeoRe
   let unpoweredInside := unpowered.filter (fun i =>
     let e := bp.ents.getD i default
     !poles.isEmpty && minL px ≤ e.x2 && e.x2 ≤ maxL px && minL py ≤ e.y2 && e.y2 ≤ maxL py)
-  { overlaps, badWires, unpowered, poleComponents := roots.length, nPoles := poles.length, connectable, unpoweredInside }
+  -- the grid before trimming: centres in 1/1000 tile
+  let unpoweredOffGrid := unpowered.filter (fun i =>
+    !(grid.any (fun (gx, gy) =>
+      boxesTouch (boxes.getD i default) (gx - gridSupply, gy - gridSupply, gx + gridSupply, gy + gridSupply))))
+  let gxs := grid.map (·.1)
+  let gys := grid.map (·.2)
+  let unpoweredGridHole := unpoweredOffGrid.filter (fun i =>
+    let e := bp.ents.getD i default
+    !grid.isEmpty && minL gxs ≤ e.x2 * 500 && e.x2 * 500 ≤ maxL gxs && minL gys ≤ e.y2 * 500 && e.y2 * 500 ≤ maxL gys)
+  { overlaps, badWires, unpowered, poleComponents := roots.length, nPoles := poles.length, connectable, unpoweredInside,
+    unpoweredOffGrid, unpoweredGridHole }
 
 end Facto
